@@ -319,6 +319,12 @@ func (it *Iterator) Seek(key []byte) {
 	// Move to the next node at level 0, which should be >= target
 	it.current = current.getNext(0)
 
+	// A concurrent insert may have linked a smaller key right after current
+	// since the search above read the pointer; step over such nodes
+	for it.current != nil && it.current.entry.compare(key) < 0 {
+		it.current = it.current.getNext(0)
+	}
+
 	// Skip nodes that are not visible in our snapshot
 	for it.current != nil && it.current != it.list.head && !it.isVisible(it.current) {
 		it.current = it.current.getNext(0)
